@@ -222,9 +222,21 @@ func genReconf(c *Config, r *rand.Rand) {
 		plan = append(plan, a)
 	}
 	if r.IntN(3) == 0 {
-		rev++
-		p := ps[r.IntN(len(ps))]
-		plan = append(plan, Action{Client: "rc2", Op: "reconfigure", Arg: p.ID, N: rev, When: pick(r, "acked", "emitted", "written"), Note: fmt.Sprintf("at=%d", r.IntN(total+2))})
+		// a second client, concurrently, on a processor the first one does not touch (requests for
+		// one pipeline's same processor are serialized by the provisioning lock in the real server)
+		used := map[string]bool{}
+		for _, a := range plan {
+			if a.Op == "reconfigure" {
+				used[a.Arg] = true
+			}
+		}
+		for _, p := range ps {
+			if !used[p.ID] {
+				rev++
+				plan = append(plan, Action{Client: "rc2", Op: "reconfigure", Arg: p.ID, N: rev, When: pick(r, "acked", "emitted", "written"), Note: fmt.Sprintf("at=%d", r.IntN(total+2))})
+				break
+			}
+		}
 	}
 	if r.IntN(4) == 0 {
 		// reconfigure while a graceful stop is draining
